@@ -123,6 +123,13 @@ def engine_traces(cls, listing, other_listing, diag, seed=0, chains=2, slow=(8, 
     k1 = cls(list(listing), initial_step_size=0.5, mm_diag=diag, **kw)
     if companion == "mm":
         k2 = cls(list(other_listing), initial_step_size=0.5, mm_diag=diag, **kw)
+    elif companion == "tuneerr":
+        # a co-existing kernel whose tuning reports an error code (whenever its first coordinate is not positive), with
+        # user-assigned identifiers whose alphabetical order is not the kernel order
+        from .runs_driver import TuneErrRW
+        k2 = TuneErrRW(list(other_listing), initial_step_size=0.5)
+        k2.err_key = list(other_listing)[0]
+        k1.identifier, k2.identifier = "z_first", "a_second"
     else:   # a co-existing kernel that does not ask for the history
         k2 = gs.RWKernel(list(other_listing), initial_step_size=0.5)
     b.add_kernel(k1)
